@@ -150,6 +150,23 @@ class LeanLock:
         self.f.close()
 
 
+class RunLock:
+    """Held by every check for its whole duration: shared normally, exclusive by a check that rebuilds from scratch
+    (thorough tier removes lean/.lake/build: a check running in the same tree at that moment would lose its model
+    drivers / .olean files and report a spurious violation). Always taken before LeanLock."""
+
+    def __init__(self, exclusive=False):
+        self.mode = fcntl.LOCK_EX if exclusive else fcntl.LOCK_SH
+
+    def __enter__(self):
+        self.f = open(os.path.join(LEAN, ".runlock"), "w")
+        fcntl.flock(self.f, self.mode)
+
+    def __exit__(self, *a):
+        fcntl.flock(self.f, fcntl.LOCK_UN)
+        self.f.close()
+
+
 def lean_build(targets, clean=False):
     """lake build of the given modules/exes. Returns (ok, output)."""
     with LeanLock():
